@@ -46,6 +46,30 @@ def nf_of(expr):
     return None
 
 
+def _name_reads_in_nf(ctx, f, role):
+    """Every read of a register's `.name` in `f` must sit inside the normal form of that register."""
+    count = 0
+    for n in ast.walk(f.node):
+        if not (isinstance(n, ast.Attribute) and n.attr == "name" and isinstance(n.ctx, ast.Load)):
+            continue
+        recv = U(n.value)
+        if recv in ("self",) or "directive" in recv:
+            continue
+        top = n
+        p = getattr(top, "_parent", None)
+        while isinstance(p, ast.BinOp) and isinstance(p.op, ast.Add):
+            top = p
+            p = getattr(top, "_parent", None)
+        count += 1
+        if nf_of(top) == recv:
+            ctx.node_ok("R1", f, top, "%s: full name of %s in normal form" % (role, recv))
+        else:
+            ctx.node_bad("R1", f, top, "%s uses the register name of %s as `%s`, not as (prefix or '') + name: "
+                         "keys written and read for one register no longer agree (AArch64 x1 vs w1, or '1')"
+                         % (role, recv, U(top)[:80]))
+    return count
+
+
 def _mixes_prefix_and_name(expr):
     at = pm.attrs_in(expr)
     return "prefix" in at and "name" in at
@@ -54,19 +78,7 @@ def _mixes_prefix_and_name(expr):
 def _r1(ctx):
     ctx.rule("R1", "register-name keys: writers and readers use (prefix or '') + name")
     w = ctx.func("ISASemantics.get_reg_changes")
-    writers = 0
-    for n in ast.walk(w.node):
-        if isinstance(n, ast.BinOp) and isinstance(n.op, ast.Add) and _mixes_prefix_and_name(n):
-            # outermost + only
-            p = getattr(n, "_parent", None)
-            if isinstance(p, ast.BinOp) and isinstance(p.op, ast.Add):
-                continue
-            writers += 1
-            r = nf_of(n)
-            if r is not None:
-                ctx.node_ok("R1", w, n, "writer key for %s in normal form" % r)
-            else:
-                ctx.node_bad("R1", w, n, "register-name key is not built as (prefix or '') + name")
+    writers = _name_reads_in_nf(ctx, w, "writer")
     ctx.floor("R1", "key-building expressions in get_reg_changes", writers, 4)
     f = ctx.func("KernelDG.is_memload")
     mem = f.params()[1]
@@ -87,8 +99,10 @@ def _r1(ctx):
                              "candidate is always skipped - a store is never linked to a later load through %s"
                              % (U(n.body), U(n.orelse), reg))
     # readers: lookups
+    state = f.params()[3] if len(f.params()) > 3 else "register_changes"
     gets = [c for c in ast.walk(f.node) if isinstance(c, ast.Call) and isinstance(c.func, ast.Attribute)
-            and c.func.attr == "get" and len(c.args) == 2 and _mixes_prefix_and_name(c.args[0])]
+            and c.func.attr == "get" and len(c.args) == 2 and U(c.func.value) == state]
+    _name_reads_in_nf(ctx, f, "reader")
     ctx.floor("R1", "register-change look-ups in is_memload", len(gets), 2)
     change_vars = {}
     for c in gets:
